@@ -190,7 +190,8 @@ sexp sexp_bit_xor (sexp ctx, sexp self, sexp_sint_t n, sexp x, sexp y) {
   } else if (sexp_bignump(x)) {
     sexp_gc_preserve2(ctx, res, tmp);
     if (sexp_fixnump(y) && sexp_unbox_fixnum(y) >= 0) {
-      res = sexp_copy_bignum(ctx, NULL, x, 0);
+      /* one more word: the magnitude of a negative result may need it */
+      res = sexp_copy_bignum(ctx, NULL, x, sexp_bignum_length(x)+1);
       if (sexp_bignum_sign(res) < 0)
         sexp_set_twos_complement(res);
       sexp_bignum_data(res)[0] ^= sexp_unbox_fixnum(y);
